@@ -50,8 +50,12 @@ def _collapse_invariants(
     if invariants_dunder in namespace:
         invariants.extend(namespace[invariants_dunder])
 
-    # Change the final invariants in the namespace
-    if invariants:
+    # Change the final invariants in the namespace.
+    #
+    # If one of the bases defines the list, we must set the list even if it is empty. Otherwise, the class would
+    # refer to the list object of its base, and the invariant decorators applied later to the class would
+    # add their invariants to the list of the base (and thus leak to the base and to all its other descendants).
+    if invariants or any(hasattr(base, invariants_dunder) for base in bases):
         namespace[invariants_dunder] = invariants
 
     # endregion
